@@ -561,22 +561,40 @@ def gen_dtc(rng, n, nrec_max=6):
         elif g == 'extrec':
             recno = rng.choice([1, 2, 0x10, 0xEF])
             ext = rng.choice([0, 1, 2, 5])
+            # a third of the cases give the sizes per DTC (a dictionary): every record has its own size, and the size of an all-zero record is the
+            # entry of DTC 0 (if there is one) - not that of a neighbouring key
+            per_dtc = rng.random() < 0.34
+            sizes = {}
             p['xrec'] = recno
             body = b''
             ids = set()
             for i in range(nrec):
                 idb = nz(3)
-                if int.from_bytes(idb, 'big') in ids:
+                did_ = int.from_bytes(idb, 'big')
+                if did_ in ids or did_ < 2:
                     continue
-                ids.add(int.from_bytes(idb, 'big'))
-                st, val = rng.randrange(256), rb(rng, ext)
+                ids.add(did_)
+                e_ = rng.choice([0, 1, 2, 5]) if per_dtc else ext
+                sizes[did_] = e_
+                st, val = rng.randrange(256), rb(rng, e_)
                 body += idb + bytes([st]) + val
-                recs.append('%d:%d:0:-:-:-:%d/%s' % (int.from_bytes(idb, 'big'), st, recno, bh(val)))
+                recs.append('%d:%d:0:-:-:-:%d/%s' % (did_, st, recno, bh(val)))
             good = bytes([recno]) + body
             cnt = len(recs)
-            p['extmode'] = 'arg'
-            extline = 'i%d' % ext
-            padunit = 4 + ext
+            if per_dtc:
+                zero_ext = rng.choice([None, 0, 1, 2, 5, ext])
+                if zero_ext is not None:
+                    sizes[0] = zero_ext
+                sizes[1] = rng.choice([x for x in (0, 1, 2, 5, 7) if x != zero_ext])
+                p['extmode'] = 'dictarg'
+                p['extdict'] = dict(sizes)
+                extline = 'd' + '|'.join('%d:%d' % kv for kv in sorted(sizes.items()))
+                padunit = None if zero_ext is None else 4 + zero_ext
+            else:
+                zero_ext = ext
+                p['extmode'] = 'arg'
+                extline = 'i%d' % ext
+                padunit = 4 + ext
         else:   # wwh
             fg = rng.choice([0, 0x33, 0xFE])
             av = rng.randrange(256)
@@ -614,6 +632,11 @@ def gen_dtc(rng, n, nrec_max=6):
             cfgd['extended_data_size'] = ext
         elif mode == 'dict':
             cfgd['extended_data_size'] = {dtcid: ext, 0x777777: 3}
+        elif mode == 'dictarg':
+            if rng.random() < 0.5:
+                kwargs['extended_data_size'] = p['extdict']
+            else:
+                cfgd['extended_data_size'] = p['extdict']
         dline = 'dec e=dtc std=2020 tol=%s ign=%s k=%d cfg=%s def=x ext=%s sf=%d dtc=%s snap=%s xrec=%s ms=%s fg=%s' % (
             b01(tol), b01(ign), k, ','.join('%d:%d' % (d_, l_) for d_, l_ in snapdids.items()), extline if g in ('extdtc', 'extrec') else '-', sf,
             on(p.get('dtc')), on(p.get('snap')), on(p.get('xrec')), on(p.get('ms')), on(p.get('fg')))
@@ -634,6 +657,7 @@ def gen_dtc(rng, n, nrec_max=6):
         case.group, case.sf, case.padunit, case.tol, case.ign = g, sf, padunit, tol, ign
         case.padclass = None if g == 'count' else ('tol' if tol else 'notol')
         case.nrec = nrec
+        case.zero_ext = zero_ext if g == 'extrec' else None
         out.append(case)
     return out
 
